@@ -2,5 +2,5 @@ SPECIFICATION Spec
 CONSTANTS
   Cases <- MC_Cases
   Machines <- MC_Machines
-  MaxLen <- MC_MaxLen
+  MaxLenOf <- MC_MaxLenOf
 INVARIANT BogusNoWriteBackOnRaise
